@@ -403,6 +403,9 @@ class CryptoEngine:
 
         self._id0: Optional[bytes] = None
 
+        self._b9_extdata_otp: Optional[bytes] = None
+        self._b9_extdata_keygen: Optional[bytes] = None
+
         for keyslot, keys in _base_key_x.items():
             self.key_x[keyslot] = keys[dev]
 
